@@ -186,8 +186,18 @@ def opt_tlvs(rng, msg, svcb=False):
         msg.add(bytes(rng.randrange(256) for _ in range(ln)))
 
 
-def rdata(rng, msg, t, pool):
+def rdata(rng, msg, t, pool, valid=False):
     """append RDATA of type t to msg; returns nothing (caller patches RDLENGTH)"""
+    def nz(choices):
+        """a length: zero (often invalid) only rarely in the valid stream"""
+        v = rng.choice(choices)
+        if valid and v == 0 and rng.random() < 0.95:
+            v = max(c for c in choices)
+        return v
+
+    def pr(p):
+        return True if (valid and rng.random() < 0.97) else rng.random() < p
+
     def nm(comp=None):
         labels = rng.choice(pool) if (pool and rng.random() < 0.6) else rand_labels(rng)
         if rng.random() < 0.3 and pool:
@@ -206,7 +216,7 @@ def rdata(rng, msg, t, pool):
             msg.add(be32(rng.choice([0, 1, 3600, 0x7FFFFFFF, 0x80000000, 0xFFFFFFFF, rng.randrange(1 << 32)])))
     elif t == T_HINFO:
         for _ in range(2):
-            s = charstr(rng, printable=rng.random() < 0.93)
+            s = charstr(rng, printable=pr(0.93))
             msg.len8_offsets.append(msg.pos())
             msg.add(bytes([len(s)]) + s)
     elif t == T_MX:
@@ -222,14 +232,14 @@ def rdata(rng, msg, t, pool):
         msg.add(be32(rng.randrange(1 << 32)) + be32(rng.randrange(1 << 32)) + be32(rng.randrange(1 << 32)))
         msg.add(be16(rng.randrange(65536)))
         nm(0.2)
-        msg.add(bytes(rng.randrange(256) for _ in range(rng.choice([0, 1, 8, 32]))))
+        msg.add(bytes(rng.randrange(256) for _ in range(nz([0, 1, 8, 32]))))
     elif t == T_SRV:
         msg.add(be16(rng.randrange(65536)) + be16(rng.randrange(65536)) + be16(rng.randrange(65536)))
         nm(0.2)
     elif t == T_NAPTR:
         msg.add(be16(rng.randrange(65536)) + be16(rng.randrange(65536)))
         for _ in range(3):
-            s = charstr(rng, printable=rng.random() < 0.95)
+            s = charstr(rng, printable=pr(0.95))
             msg.len8_offsets.append(msg.pos())
             msg.add(bytes([len(s)]) + s)
         nm(0.2)
@@ -237,25 +247,25 @@ def rdata(rng, msg, t, pool):
         opt_tlvs(rng, msg, svcb=False)
     elif t == T_TLSA:
         msg.add(bytes([rng.randrange(256), rng.randrange(256), rng.randrange(256)]))
-        msg.add(bytes(rng.randrange(256) for _ in range(rng.choice([0, 1, 32, 64]))))
+        msg.add(bytes(rng.randrange(256) for _ in range(nz([0, 1, 32, 64]))))
     elif t in (T_SVCB, T_HTTPS):
         msg.add(be16(rng.choice([0, 1, 2, rng.randrange(65536)])))
         nm(0.2)
         opt_tlvs(rng, msg, svcb=True)
     elif t == T_URI:
         msg.add(be16(rng.randrange(65536)) + be16(rng.randrange(65536)))
-        msg.add(charstr(rng, m=rng.choice([0, 1, 10, 40]), printable=rng.random() < 0.9))
+        msg.add(charstr(rng, m=nz([0, 1, 10, 40]), printable=pr(0.9)))
     elif t == T_CAA:
         msg.add(bytes([rng.choice([0, 128, rng.randrange(256)])]))
-        tag = charstr(rng, m=rng.choice([0, 1, 5, 9]), printable=rng.random() < 0.95)
+        tag = charstr(rng, m=nz([0, 1, 5, 9]), printable=pr(0.95))
         msg.len8_offsets.append(msg.pos())
         msg.add(bytes([len(tag)]) + tag)
-        msg.add(bytes(rng.randrange(256) for _ in range(rng.choice([0, 1, 10, 40]))))
+        msg.add(bytes(rng.randrange(256) for _ in range(nz([0, 1, 10, 40]))))
     else:
         msg.add(bytes(rng.randrange(256) for _ in range(rng.choice([0, 0, 1, 4, 17, 60]))))
 
 
-def rr(rng, msg, pool, t=None, rdlen_skew=0, extra_tail=0):
+def rr(rng, msg, pool, t=None, rdlen_skew=0, extra_tail=0, valid=False):
     t = rng.choice(KNOWN + KNOWN + UNKNOWN_TYPES) if t is None else t
     if t == T_OPT and rng.random() < 0.8:
         msg.add(b"\0")
@@ -267,13 +277,16 @@ def rr(rng, msg, pool, t=None, rdlen_skew=0, extra_tail=0):
         msg.add(be16(rng.choice([512, 1232, 4096, 0, 65535])))
         msg.add(bytes([rng.choice([0, 0, 0, 1, 0x10, 0xFF]), rng.choice([0, 0, 1, 255])]) + be16(rng.choice([0, 0x8000, 0xFFFF, 1])))
     else:
-        msg.add(be16(rng.choice(CLASSES)))
+        cls = rng.choice(CLASSES)
+        if valid and rng.random() < 0.95:
+            cls = rng.choice([1, 1, 1, 1, 3, 4, 254])
+        msg.add(be16(cls))
         msg.add(be32(rng.choice([0, 1, 60, 300, 86400, 0x7FFFFFFF, 0x80000000, 0xFFFFFFFF])))
     lenpos = msg.pos()
     msg.len_offsets.append(lenpos)
     msg.add(b"\0\0")
     start = msg.pos()
-    rdata(rng, msg, t, pool)
+    rdata(rng, msg, t, pool, valid)
     if extra_tail:
         msg.add(bytes(rng.randrange(256) for _ in range(extra_tail)))
     ln = (msg.pos() - start + rdlen_skew) & 0xFFFF
@@ -299,19 +312,21 @@ def message(rng, style="valid"):
     msg.add(be16(rng.randrange(65536)) + be16(flags) + b"".join(be16(c) for c in cnts))
     # question
     msg.name(pool[0], 0.0)
-    msg.add(be16(rng.choice(KNOWN + [T_ANY, 0, 65535, 251])) + be16(rng.choice(CLASSES[:8])))
+    msg.add(be16(rng.choice(KNOWN + [T_ANY, 0, 65535, 251])) + be16(rng.choice(CLASSES[:8] if style == "valid" else CLASSES)))
     skew_at = rng.randrange(nan + nns + nar) if (style == "rdlen" and nan + nns + nar) else -1
     k = 0
+    have_opt = False
     for sect, n in ((1, nan), (2, nns), (3, nar)):
         for _ in range(n):
             t = None
-            if sect == 3 and rng.random() < 0.5:
+            if sect == 3 and rng.random() < 0.5 and not (style == "valid" and have_opt and rng.random() < 0.9):
                 t = T_OPT
+                have_opt = True
             if style == "valid" and t is None:
-                t = rng.choice(KNOWN + [rng.choice(UNKNOWN_TYPES)])
+                t = rng.choice([x for x in KNOWN if x != T_OPT] + [rng.choice(UNKNOWN_TYPES)])
             skew = rng.choice([-1, 1, -2, 2, 5]) if k == skew_at else 0
             tail = rng.choice([0, 0, 0, 1, 3]) if style != "valid" else (1 if rng.random() < 0.05 else 0)
-            rr(rng, msg, pool, t, rdlen_skew=skew, extra_tail=tail)
+            rr(rng, msg, pool, t, rdlen_skew=skew, extra_tail=tail, valid=(style == "valid"))
             k += 1
     if rng.random() < 0.1:
         msg.add(bytes(rng.randrange(256) for _ in range(rng.randint(1, 5))))  # trailing garbage
@@ -540,6 +555,31 @@ def gen(rng, tier, n):
             else:
                 d = message(rng)[0]
             out.append(expand_case(rng, d, False))
+    return out
+
+
+def gen_c04(rng, tier, n):
+    """the C04 stream: parse flags 0 only, mostly-valid messages dominant, no legacy cases"""
+    out = []
+    seeds = seed_messages()
+    while len(out) < n:
+        r = rng.random()
+        if r < 0.62:
+            d, _ = message(rng, "valid")
+        elif r < 0.70:
+            d, _ = message(rng, rng.choice(["counts", "rdlen", "messy"]))
+        elif r < 0.80:
+            d = name_layout(rng)
+        elif r < 0.95:
+            d, m = message(rng, "valid")
+            d = mutate(rng, d, m)
+        elif seeds:
+            d = rng.choice(seeds)
+            if rng.random() < 0.7:
+                d = mutate(rng, d)
+        else:
+            d = name_layout(rng)
+        out.append(pcase(rng, d, 0))
     return out
 
 
